@@ -180,3 +180,75 @@ def _clone_derives(repo):
         manual = bool(re.search(r"impl\s*(?:<[^>]*>)?\s*Clone\s+for\s+%s\b" % name, src))
         out.append(f"{name}:{'derive' if derived else ('manual' if manual else 'none')}")
     return out, f"def c15CloneDerives : List String := {_lean_list(out)}"
+
+
+def _rs_files(repo):
+    import os
+    base = os.path.join(repo, "minijinja", "src")
+    out = []
+    for d, _, fs in os.walk(base):
+        for f in fs:
+            if f.endswith(".rs"):
+                rel = os.path.relpath(os.path.join(d, f), base)
+                # the feature-gated verification hooks are ours, off by default, and hold counters only
+                if rel == "verif_hooks.rs" or rel.startswith("vendor"):
+                    continue
+                out.append(rel)
+    return sorted(out)
+
+
+@item("C15_THREAD_LOCALS")
+def _thread_locals(repo):
+    """every `static NAME` declared inside a `thread_local!` block of the crate"""
+    import os
+    rows = []
+    for rel in _rs_files(repo):
+        src = _nocomment(read(repo, os.path.join("minijinja/src", rel)))
+        for m in re.finditer(r"thread_local!\s*\{", src):
+            body = fn_body(src[m.start():], r"thread_local!\s*\{")
+            for name in re.findall(r"static\s+(?:mut\s+)?(\w+)\s*:", body):
+                rows.append(f"{rel}:{name}")
+    rows = sorted(set(rows))
+    if not rows:
+        raise KeyError("thread_local! blocks")
+    return rows, f"def c15ThreadLocals : List String := {_lean_list(rows)}"
+
+
+@item("C15_DROP_GUARDS")
+def _drop_guards(repo):
+    """every `impl Drop for X` of the crate whose body writes a cell/flag/thread-local (set/replace/
+    store/with/borrow_mut): (type, normalised condition guarding the write, the write)"""
+    import os
+    rows = []
+    for rel in _rs_files(repo):
+        src = _nocomment(read(repo, os.path.join("minijinja/src", rel)))
+        for m in re.finditer(r"impl(?:\s*<[^>]*>)?\s+Drop\s+for\s+(\w+)", src):
+            if "macro_rules" in src[max(0, m.start() - 2000):m.start()] and "$" in src[m.start():m.start() + 200]:
+                continue
+            try:
+                body = fn_body(src[m.start():], r"fn drop\s*\(\s*&mut self\s*\)")
+            except KeyError:
+                continue
+            if not re.search(r"\.(?:set|replace|store|borrow_mut|with)\s*\(", body):
+                continue
+            norm = re.sub(r"\s+", " ", body).strip()
+            mm = re.fullmatch(r"if (.+?) \{ (.+?) \}", norm)
+            if mm:
+                rows.append((m.group(1), mm.group(1).strip(), mm.group(2).strip()))
+            else:
+                rows.append((m.group(1), "?", norm))
+    lean = "def c15DropGuards : List (String × String × String) := [" + ", ".join(
+        f"({lean_str(a)}, {lean_str(b)}, {lean_str(c)})" for a, b, c in rows) + "]"
+    return rows, lean
+
+
+@item("C15_POOL_TAKE_CLEARS")
+def _pool_take(repo):
+    src = _nocomment(read(repo, "minijinja/src/compiler/codegen.rs"))
+    rows = []
+    for fn in ("take_pending_block_buffer", "take_span_stack_buffer"):
+        body = fn_body(src, r"fn %s\s*\(\)" % fn)
+        rows.append((fn, bool(re.search(r"\bbuf\.clear\(\)", body))))
+    lean = "def c15PoolTakeClears : List (String × Bool) := [" + ", ".join(
+        f"({lean_str(a)}, {'true' if b else 'false'})" for a, b in rows) + "]"
+    return rows, lean
